@@ -855,6 +855,9 @@ fn reuse(o: &Opts, out: &mut Out, run: &mut u64) {
     let n = if thorough { 200 } else { 24 };
     for k in 0..n {
         let (mut tb, c1, sc, data) = storage_tx(&mut rng, o.seed.wrapping_mul(131).wrapping_add(k as u64));
+        // two more contracts for the history: one reverts, one panics - a transaction that ENDS INSIDE a called contract
+        let cx = tb.setup_contract(vec![op::movi(RegId::new(0x10), 64), op::aloc(RegId::new(0x10)), op::rvrt(RegId::ONE)], None, None).contract_id;
+        let cp = tb.setup_contract(vec![op::cfei(64), op::sw(RegId::ZERO, RegId::ONE, 0)], None, None).contract_id;
         let gas = if rng.gen_range(0..5) == 0 { rng.gen_range(300..5000) } else { 1_000_000 };
         // every fourth target only REFERENCES c1 (size / balance / root / call) without listing it: what an earlier
         // transaction on the same instance listed must not matter (on a fresh instance these panic ContractNotInInputs)
@@ -904,7 +907,7 @@ fn reuse(o: &Opts, out: &mut Out, run: &mut u64) {
         let hist_n = if heap_target { 1 } else { rng.gen_range(1..4) };   // (heap target: exactly one predecessor, with a small dirty heap)
         let mut hist_desc = vec![];
         for h in 0..hist_n {
-            let kind = if unlisted && h == 0 { 0 } else if heap_target { 4 } else { rng.gen_range(0..5) };
+            let kind = if unlisted && h == 0 { 0 } else if heap_target { 4 } else { rng.gen_range(0..7) };
             let checked = match kind {
                 0 => { // a different storage transaction on the same contract (warms the slot cache, may panic / revert)
                     let (_, _, sc2, _) = storage_tx(&mut rng, 999 + h);
@@ -912,6 +915,13 @@ fn reuse(o: &Opts, out: &mut Out, run: &mut u64) {
                 }
                 1 => simple_script(&w, &mut rng, asm(vec![op::movi(RegId::new(0x10), 0x3ffff), op::aloc(RegId::new(0x10)), op::aloc(RegId::new(0x10)), op::sb(RegId::HP, RegId::ONE, 0), op::cfei(0xffff), op::sw(RegId::SSP, RegId::ONE, 100), op::ret(RegId::ONE)]), vec![], 1_000_000).ok(),
                 2 => { let code = gen_program(&mut rng); let d = rbytes(&mut rng, 16); simple_script(&w, &mut rng, code, d, 3000).ok() }
+                5 | 6 => { // ends inside a called contract (revert / panic): frames, $fp, $is of the callee must not survive
+                    let ca = if kind == 5 { cx } else { cp };
+                    let r = |k: u8| RegId::new(0x10 + k);
+                    let sc5 = vec![op::gtf_args(r(0), RegId::ZERO, GTFArgs::ScriptData), op::call(r(0), RegId::ZERO, RegId::ZERO, RegId::CGAS), op::ret(RegId::ONE)];
+                    tb.start_script(sc5, Call::new(ca, 0, 0).to_bytes()).gas_price(0).script_gas_limit(100_000).contract_input(ca).fee_input().contract_output(&ca);
+                    catch(std::panic::AssertUnwindSafe(|| tb.build())).ok()
+                }
                 4 => { // a small heap, completely dirty
                     let r = |k: u8| RegId::new(0x10 + k);
                     let mut p = vec![op::movi(r(1), 1024), op::aloc(r(1)), op::not(r(2), RegId::ZERO)];
